@@ -146,7 +146,7 @@ def run_parallel(jobs, par=None):
         return [f.result() for f in futs]
 
 
-_re_bad = re.compile(r'<<"VERIF_BAD", (\d+), \{(.*?)\}>>')
+_re_bad = vlib._re_bad   # robust against TLC wrapping long tuples over several lines
 
 
 def check_table(ck, module, cfg, table, name, signature, chunk=20000, timeout=900, heap="3g", par=None):
